@@ -19,6 +19,7 @@ to depth 50 000; unhashable keys; also through the real
 ServerClientConnection._recvClientHello / _recvChallengeResponse, the client's
 _recvServerHello and Request.message().
 """
+import os
 import struct
 import time
 import tracemalloc
@@ -334,6 +335,20 @@ def run_shard(cfg):
         elif via == "load-persistant":
             def call():
                 return S.Serializable.load_persistant(b)
+        elif via == "loadz":
+            import gzip as _gz
+            zb = _gz.compress(b)
+
+            def call():
+                return S.Serializable.loadz(zb)
+        elif via == "buffered-file":
+            def call():
+                import tempfile
+                with tempfile.NamedTemporaryFile(dir=os.environ.get("VERIF_SCRATCH", "/var/tmp")) as tf:
+                    tf.write(b)
+                    tf.flush()
+                    with open(tf.name, "rb") as fh:
+                        return S.Serializable.loadb(fh)
         else:
             def call():
                 return Request(("1.2.3.4", 5), "POST", "/m", {}, "", {}, reads.cls(b)).message()
@@ -369,7 +384,7 @@ def run_shard(cfg):
         c.inc("decoder_line_steps", steps.steps)
         peak = tracemalloc.get_traced_memory()[1] - base
         del exc
-        if dt > 5.0:
+        if dt > 60.0:
             c.inc("watchdog_inconclusive")
         if via in ("loadb", "request-message", "load-persistant"):
             bound = len(b) // 2 + 1
@@ -388,6 +403,11 @@ def run_shard(cfg):
         limit = ALLOC_BASE + ALLOC_PER_BYTE * len(b)
         if via in ("client-hello-handler", "challenge-handler", "server-hello-handler"):
             limit += 64 * 1024          # key objects of the connection the handler belongs to
+        if via in ("loadz", "buffered-file"):
+            # the reader's own buffers (gzip: ~58 KiB, buffered file: 8 KiB + the temp file object) plus ONE read request of at most
+            # the documented size limit: BufferedReader/GzipFile allocate what read(n) asks for before the data turns out to be
+            # missing (observation (vi) in DESIGN.md; the decoder never asks for more than MAX_BYTES_LENGTH)
+            limit += 192 * 1024 + S.MAX_BYTES_LENGTH
         if peak > limit:
             viol("allocates-beyond-input", "%s input of %d bytes (%s): peak allocation %d bytes, bound %d" % (label, len(b), via, peak, limit),
                  {"input": b[:64].hex(), "label": label, "peak": peak})
@@ -463,6 +483,11 @@ def run_shard(cfg):
             judge(label, b)
             if label.startswith("bomb") and len(b) < 1400:
                 judge(label, b, via="client-hello-handler")
+            if label.startswith(("declared-length", "nested-declared-length", "non-integer-length")) and len(b) < 4000:
+                # the same hostile bytes behind the other stream kinds (a reader that honours read(n) by allocating n bytes first)
+                judge(label, b, via="loadz")
+                judge(label, b, via="buffered-file")
+                c.inc("via_other_stream_kinds")
         # the real handshake decoders and Request.message on mutated handshake messages
         hs = {k: b for k, b in valid if k != "value"}
         n = cfg["n"]
@@ -534,7 +559,9 @@ def run_shard(cfg):
         for k in range(cfg["n"] // 8):
             table = {}
             for _ in range(r.randint(0, 6)):
-                table[r.choice(ids + [40000, 0, 65535, 1 << 20])] = r.choice(names + ["NoSuchClass", ""])
+                table[r.choice(ids + [40000, 0, 65535, 1 << 20])] = r.choice(names + ["NoSuchClass", "", "sys.exit", "os._exit", "os.system", "builtins.eval", "builtins.object",
+                                                                                       "collections.OrderedDict", "mpgameserver.auth.Auth", "io.BytesIO", "this.s", "subprocess.Popen",
+                                                                                       "mpgameserver.serializable.Serializable", "__main__.x", "a.b.c"])
             late_body = None
             if late and r.random() < 0.3:
                 late_body, LC, _c = r.choice(late)
@@ -597,10 +624,10 @@ def finish(tier, seed, results):
     m = merge(results)
     inconclusive = []
     need(m["counters"], ["inputs", "returned", "raised_ordinary_exception", "control_valid_decoded", "inputs_declared-length", "inputs_nested-declared-length", "inputs_deep-nesting-seq",
-                         "inputs_truncation", "inputs_many-objects", "inputs_bomb", "inputs_many-empty-objects", "inputs_bitflip", "inputs_typeid", "inputs_random", "via_client-hello-handler", "via_challenge-handler",
+                         "inputs_truncation", "inputs_many-objects", "inputs_bomb", "inputs_many-empty-objects", "via_other_stream_kinds", "inputs_bitflip", "inputs_typeid", "inputs_random", "via_client-hello-handler", "via_challenge-handler",
                          "via_server-hello-handler", "via_request-message", "decoded_values_inspected", "decoder_line_steps", "post_control_valid_decoded", "post_control_same_value", "post_control_late_classes", "via_load-persistant", "inputs_with_read_meter"], inconclusive)
     if m["counters"].get("watchdog_inconclusive"):
-        inconclusive.append("%d inputs exceeded the 5 s wall-clock watchdog" % m["counters"]["watchdog_inconclusive"])
+        inconclusive.append("%d inputs exceeded the 60 s wall-clock watchdog" % m["counters"]["watchdog_inconclusive"])
     if m["counters"].get("control_valid_failed"):
         inconclusive.append("positive control failed: %d valid encodings did not decode" % m["counters"]["control_valid_failed"])
     cov = {
